@@ -446,7 +446,7 @@ class Arr:
     def __init__(s, name, dtype='stored'):
         s.name, s.dtype = name, dtype
 
-    def astype(s, dt):
+    def astype(s, dt, copy=True, **kw):
         return Arr(s.name, dt)
 
     def numpy(s):
